@@ -50,6 +50,7 @@ func FixPEChecksum(f *os.File) error {
 
 type peChecksum struct {
 	cksumPos  int
+	pos       int
 	sum, size uint32
 	odd       bool
 }
@@ -76,6 +77,7 @@ func (peChecksum) BlockSize() int {
 
 func (h *peChecksum) Reset() {
 	h.cksumPos = -1
+	h.pos = 0
 	h.sum = 0
 	h.size = 0
 }
@@ -91,22 +93,17 @@ func (h *peChecksum) Write(d []byte) (int, error) {
 		copy(d2, d)
 		d = d2
 	}
-	ckpos := -1
-	if h.cksumPos > n {
-		h.cksumPos -= n
-	} else if h.cksumPos >= 0 {
-		ckpos = h.cksumPos
-		h.cksumPos = -1
-	}
 	sum := h.sum
 	for i := 0; i < n; i += 2 {
 		val := uint32(d[i+1])<<8 | uint32(d[i])
-		if i == ckpos || i == ckpos+2 {
+		// the checksum field itself counts as zero; it may straddle two writes
+		if abs := h.pos + i; h.cksumPos >= 0 && (abs == h.cksumPos || abs == h.cksumPos+2) {
 			val = 0
 		}
 		sum += val
 		sum = 0xffff & (sum + (sum >> 16))
 	}
+	h.pos += n
 	h.sum = sum
 	h.size += uint32(n)
 	return n, nil
